@@ -4,6 +4,7 @@ import GnpyProofs.Lemmas.Disjoint
 import GnpyProofs.Props.C11
 import GnpyProofs.Lemmas.Selection
 import GnpyProofs.Lemmas.SelectionSound
+import GnpyProofs.Lemmas.Sync
 /- Property theorems for C12 — requests declared disjoint never share a link in either direction.
    Model: GnpyModel/Route.lean (`LinkDisjoint`, `isdisjointPy`, `shortOf`, `revChain`, `disjointOracle`, steps 2-5 of
    `compute_path_dsjctn` over abstract candidates). -/
@@ -302,6 +303,45 @@ theorem group_complete_partial (inp : SelInput) (d : Nat) (dl reqs : List Nat)
   rw [step5_single_none_iff, step4_nil_iff]
   exact h
 
+/-- **completeness for ONE vector of any size (three requests, four, …) under an explicit hypothesis.**  If no candidate
+is orphaned in step 3 (`NoOrphan`: whenever a combination holds a path equal by value to candidate `c`, some combination
+uses `c` for its own request — true for pairs by `noOrphan_pair`, true whenever the requests of the vector have pairwise
+different end points, since then no two candidates of different requests are equal), the selection ends in a
+DisjunctionError exactly when there is NO assignment of one valid, acceptable candidate per request in which every
+candidate passes the disjointness test against all candidates before it. -/
+theorem single_vector_complete (inp : SelInput) (d : Nat) (dl reqs : List Nat) (hne : dl ≠ [])
+    (hno : ∀ r ∈ reqs, r ∈ dl → ∀ c ∈ candsOf inp r, NoOrphan inp.vid c (step2 inp dl)) :
+    selectDisjoint inp [(d, dl)] reqs = none ↔
+      ¬ ∃ sol : List Cand, sol.map Prod.fst = dl ∧ (∀ c ∈ sol, c.2 < inp.ncand c.1) ∧
+          sol.Pairwise (fun a b => inp.dis b a = true) ∧ sol.all (accCand inp) = true := by
+  unfold selectDisjoint
+  simp only [List.map_cons, List.map_nil]
+  rw [step3_single inp d dl reqs _ hno]
+  simp only [List.map_cons, List.map_nil]
+  rw [step5_single_none_iff, step4_nil_iff]
+  constructor
+  · rintro h ⟨sol, hm, hv, hp, ha⟩
+    have := h sol (step2_complete inp dl sol hne ⟨hm, hp⟩ hv)
+    rw [ha] at this; exact absurd this (by simp)
+  · intro h sol hsol
+    by_contra hcon
+    have ha : sol.all (accCand inp) = true := by simpa using hcon
+    obtain ⟨hm, hp⟩ := step2_good inp dl sol hsol
+    refine h ⟨sol, hm, ?_, hp, ha⟩
+    intro c hc
+    -- candidates of step 2 are valid: they come from `candsOf`
+    have : ∀ s ∈ step2 inp dl, ∀ c ∈ s, c.2 < inp.ncand c.1 := step2_valid inp dl
+    exact this sol hsol c hc
+
+/-- the hypothesis of `single_vector_complete` holds for every vector whose requests have pairwise different end points
+(no two candidates of different requests are the same path) -/
+theorem single_vector_complete_distinct (inp : SelInput) (d : Nat) (dl reqs : List Nat) (hne : dl ≠ [])
+    (hinj : ∀ c c', inp.vid c = inp.vid c' → c = c') :
+    selectDisjoint inp [(d, dl)] reqs = none ↔
+      ¬ ∃ sol : List Cand, sol.map Prod.fst = dl ∧ (∀ c ∈ sol, c.2 < inp.ncand c.1) ∧
+          sol.Pairwise (fun a b => inp.dis b a = true) ∧ sol.all (accCand inp) = true :=
+  single_vector_complete inp d dl reqs hne (fun _ _ _ c _ => noOrphan_of_injective inp.vid hinj c _)
+
 /-- candidates of three requests A=0, B=1, C=2 (two each) and the pairs that pass the disjointness test -/
 def okPairs : List (Cand × Cand) :=
   [((0, 0), (1, 0)), ((0, 1), (1, 1)), ((1, 0), (2, 0)), ((1, 1), (2, 1)), ((0, 0), (2, 1)), ((0, 1), (2, 1)),
@@ -323,6 +363,103 @@ theorem overlapping_complete_fails_current :
     selectDisjoint demoInc [(0, [0, 1]), (1, [1, 2]), (2, [0, 2])] [0, 1, 2] = none ∧
     (demoInc.dis (1, 1) (0, 1) = true ∧ demoInc.dis (2, 1) (1, 1) = true ∧ demoInc.dis (2, 1) (0, 1) = true) ∧
     selectDisjoint demoInc [(0, [0, 1, 2])] [0, 1, 2] = some [(0, 1), (1, 1), (2, 1)] := by decide
+
+end Gnpy.Route
+
+/-! ### from the vectors the user declared to the vectors the path computation sees -/
+namespace Gnpy.Sync
+open Gnpy.Response
+
+/-- **`deduplicate_disjunctions`, what can be relied on**: the result is a sub-list of the declared vectors (nothing
+invented, nothing reordered, ids and request lists untouched) and nothing is lost — every declared vector still has a
+vector over the same set of requests in the result.  Holds with the nested remove-while-iterating of the code. -/
+theorem dedup_spec (l : List Disj) :
+    (deduplicateDisjunctions l).Sublist l ∧
+    ∀ d ∈ l, ∃ d' ∈ deduplicateDisjunctions l, sameSet d.reqs d'.reqs = true := by
+  have h := dedupOuter_spec l l.length 0 l (fun d hd => ⟨d, hd, sameSet_refl _⟩)
+  exact ⟨h.2, h.1⟩
+
+/-- the third clause one would like, "no two vectors over the same set remain", is FALSE for the current code: with
+three copies of {a,b} and three of {a,c} interleaved as below, the iterators skip entries and two vectors over {a,c}
+survive.  Harmless for C12 (a repeated vector repeats a demand), therefore not part of `dedup_spec`. -/
+theorem dedup_no_duplicates_fails_current :
+    (deduplicateDisjunctions [⟨"d0", ["a", "b"]⟩, ⟨"d1", ["a", "c"]⟩, ⟨"d2", ["a", "b"]⟩, ⟨"d3", ["a", "b"]⟩,
+                              ⟨"d4", ["a", "c"]⟩, ⟨"d5", ["a", "c"]⟩]).map (fun d => (d.id, d.reqs)) =
+      [("d1", ["a", "c"]), ("d3", ["a", "b"]), ("d5", ["a", "c"])] := by decide
+
+variable {κ α : Type} [DecidableEq κ] [Add α]
+
+/-- **`requests_aggregation` keeps every declared demand** (code as repaired by F14).  `ren` = the name each request
+id carries after the aggregation (the id of the request that absorbed it; computed by `requestsAggregationT`, which is
+the C19 model `requestsAggregationD` plus this book-keeping).  The vectors handed to the path computation are the
+declared vectors, same number, same order, same vector ids, and whenever a declared vector lists `x` and `y`, the
+corresponding output vector lists `ren x` and `ren y`. -/
+theorem aggregation_preserves_disjointness_demands (rs : List (AReq κ α)) (ds : List Disj) :
+    (requestsAggregationT rs ds).1 = requestsAggregationD rs ds ∧
+    List.Forall₂ (fun d d' => d'.id = d.id ∧ ∀ x ∈ d.reqs, (requestsAggregationT rs ds).2 x ∈ d'.reqs)
+      ds (requestsAggregationD rs ds).2 := by
+  have h := fold_aggStepT ds (List.range rs.length) ((rs, ds), fun x => x) (renamed_refl ds)
+  unfold requestsAggregationT requestsAggregationD
+  refine ⟨h.1, ?_⟩
+  have h2 := h.2
+  unfold Renamed at h2
+  rw [h.1] at h2
+  exact h2
+
+/-- pairwise reading of the previous theorem -/
+theorem aggregation_pair_demand (rs : List (AReq κ α)) (ds : List Disj) (d : Disj) (hd : d ∈ ds) (x y : String)
+    (hx : x ∈ d.reqs) (hy : y ∈ d.reqs) :
+    ∃ d' ∈ (requestsAggregationD rs ds).2, d'.id = d.id ∧
+      (requestsAggregationT rs ds).2 x ∈ d'.reqs ∧ (requestsAggregationT rs ds).2 y ∈ d'.reqs := by
+  have h := (aggregation_preserves_disjointness_demands rs ds).2
+  have key : ∀ (l : List Disj) (l' : List Disj) (R : Disj → Disj → Prop), List.Forall₂ R l l' → d ∈ l →
+      ∃ d' ∈ l', R d d' := by
+    intro l l' R hf
+    induction hf with
+    | nil => intro hm; simp at hm
+    | cons hab _ ih =>
+      intro hm
+      rcases List.mem_cons.1 hm with rfl | hm
+      · exact ⟨_, by simp, hab⟩
+      · obtain ⟨d', hd', hr⟩ := ih hm
+        exact ⟨d', List.mem_cons_of_mem _ hd', hr⟩
+  obtain ⟨d', hd', hrel⟩ := key _ _ _ h hd
+  exact ⟨d', hd', hrel.1, hrel.2 x hx, hrel.2 y hy⟩
+
+/-- **two requests of one vector are never merged**: `compare_reqs` demands equal partner sets (`same_disj`), and two
+different requests listed in a common vector (vectors without repeated ids) never have equal partner sets — each is
+a partner of the other but not of itself.  So `ren x = ren y` cannot come from merging `x` with `y`. -/
+theorem partners_never_merged (ds : List Disj) (hnd : ∀ d ∈ ds, d.reqs.Nodup) (d : Disj) (hd : d ∈ ds)
+    (x y : String) (hx : x ∈ d.reqs) (hy : y ∈ d.reqs) (hxy : x ≠ y) : sameDisj ds x y = false :=
+  sameDisj_false_of_common_vector ds hnd d hd x y hx hy hxy
+
+/-- every merge the aggregation performs joins `req` into a request `t` with `same_disj` true at that moment — hence,
+by `partners_never_merged`, two requests that share no vector -/
+theorem merge_requires_same_disj (ds : List Disj) (req : AReq κ α) (loc l' : List (AReq κ α)) (oldId newId : String)
+    (h : absorbIntoD ds req loc = some (l', oldId, newId)) (hnd : ∀ d ∈ ds, d.reqs.Nodup) :
+    ∃ t ∈ loc, oldId = t.idStr ∧ newId = (absorb t req).idStr ∧ absorb t req ∈ l' ∧
+      ∀ d ∈ ds, ¬ (req.idStr ∈ d.reqs ∧ t.idStr ∈ d.reqs) := by
+  obtain ⟨t, ht, h1, h2, h3, h4, h5⟩ := absorbIntoD_spec ds req loc l' oldId newId h
+  refine ⟨t, ht, h1, h2, h5, ?_⟩
+  rintro d hd ⟨hx, hy⟩
+  have := partners_never_merged ds hnd d hd _ _ hx hy h3
+  rw [this] at h4; exact absurd h4 (by simp)
+
+/-- non-vacuity: the F14b instance. Requests 1 and 3 are twins (same compared fields, partners {2,4} each); 1 is merged
+into 3; all three declared vectors survive with '1' and '3' renamed to '3 | 1', so {4,2} is still demanded -/
+def demoReq (p : Nat) (i k : String) : AReq String Nat :=
+  { pos := p, parts := [i], key := k, hasMode := true, bw := 1, n := [], m := [] }
+def demoRs : List (AReq String Nat) := [demoReq 0 "1" "A", demoReq 1 "2" "B", demoReq 2 "3" "A", demoReq 3 "4" "C"]
+def demoDs : List Disj := [⟨"s0", ["3", "4", "2"]⟩, ⟨"s1", ["1", "2"]⟩, ⟨"s2", ["1", "4"]⟩]
+
+example : (requestsAggregationD demoRs demoDs).2.map (fun d => (d.id, d.reqs)) =
+    [("s0", ["4", "2", "3 | 1"]), ("s1", ["2", "3 | 1"]), ("s2", ["4", "3 | 1"])] := by decide
+example : ["1", "2", "3", "4"].map (requestsAggregationT demoRs demoDs).2 = ["3 | 1", "2", "3 | 1", "4"] := by decide
+example : ∀ d ∈ demoDs, d.reqs.Nodup := by decide
+
+end Gnpy.Sync
+
+namespace Gnpy.Route
 
 /-! ### non-vacuity: two ROADM triangles' worth of OMS -/
 
